@@ -107,3 +107,8 @@ def run(ctx):
                 if not any("write_tick_end" in x and not re.search(r"write_tick_end\s*:\s*Default", x) for x in rebuild[1:]):
                     ctx.violation(R3, key + "|tick-end-dropped", "the rebuilt OperatorWriteOutput does not carry the delegate's write_tick_end: the delegate's 'tick state would never be reset", loc)
     ctx.extra["persistence_operators"] = n
+
+    if ctx.tier == "thorough":
+        # translation validation on a corpus of dfir_syntax! programs compiled with this tree's dfir_lang (never run)
+        import corpus
+        corpus.rules_c21(ctx)
